@@ -1,6 +1,7 @@
-"""Watchdog around implementation calls (DESIGN 2.5)."""
+"""Watchdog around implementation calls (DESIGN 2.5).  Re-entrant: a guarded call made inside another guarded call
+never disarms or extends the outer alarm."""
 import signal
-import itertools
+import time
 
 
 class CallTimeout(BaseException):
@@ -14,44 +15,65 @@ def _alarm(signum, frame):
 signal.signal(signal.SIGALRM, _alarm)
 
 
+class _Timer:
+    """Arms the alarm for min(timeout, what is left of the enclosing alarm); restores the enclosing alarm on exit."""
+
+    def __init__(self, timeout):
+        self.timeout = timeout
+
+    def __enter__(self):
+        self.outer = signal.getitimer(signal.ITIMER_REAL)[0]
+        self.t0 = time.time()
+        t = self.timeout if self.outer <= 0 else min(self.timeout, self.outer)
+        signal.setitimer(signal.ITIMER_REAL, max(t, 0.001))
+        return self
+
+    def __exit__(self, *a):
+        if self.outer > 0:
+            left = self.outer - (time.time() - self.t0)
+            signal.setitimer(signal.ITIMER_REAL, max(left, 0.001))
+        else:
+            signal.setitimer(signal.ITIMER_REAL, 0)
+        return False
+
+
 def call(fn, *args, timeout=2.0, **kw):
     """-> ('ok', value) | ('exc', 'ClassName', message) | ('timeout',)"""
-    signal.setitimer(signal.ITIMER_REAL, timeout)
+    outer_armed = signal.getitimer(signal.ITIMER_REAL)[0] > 0
+    t0 = time.time()
     try:
-        v = fn(*args, **kw)
-        signal.setitimer(signal.ITIMER_REAL, 0)
+        with _Timer(timeout):
+            v = fn(*args, **kw)
         return ("ok", v)
     except CallTimeout:
+        if outer_armed and time.time() - t0 < timeout * 0.95:
+            raise            # it was the enclosing alarm that fired: let the enclosing guarded call see it
         return ("timeout",)
-    except RecursionError as e:
-        signal.setitimer(signal.ITIMER_REAL, 0)
+    except RecursionError:
         return ("exc", "RecursionError", "")
     except Exception as e:  # pylint: disable=broad-except
-        signal.setitimer(signal.ITIMER_REAL, 0)
         return ("exc", type(e).__name__, str(e)[:200])
-    finally:
-        signal.setitimer(signal.ITIMER_REAL, 0)
 
 
 def take(gen_fn, limit, timeout=2.0):
     """Consume at most `limit` items of the iterable returned by gen_fn().
     -> ('ok', items, exhausted) | ('exc', name, msg) | ('timeout', items)"""
     items = []
-    signal.setitimer(signal.ITIMER_REAL, timeout)
+    outer_armed = signal.getitimer(signal.ITIMER_REAL)[0] > 0
+    t0 = time.time()
     try:
-        it = iter(gen_fn())
-        exhausted = True
-        for x in it:
-            if len(items) >= limit:
-                exhausted = False
-                break
-            items.append(x)
-        signal.setitimer(signal.ITIMER_REAL, 0)
+        with _Timer(timeout):
+            it = iter(gen_fn())
+            exhausted = True
+            for x in it:
+                if len(items) >= limit:
+                    exhausted = False
+                    break
+                items.append(x)
         return ("ok", items, exhausted)
     except CallTimeout:
+        if outer_armed and time.time() - t0 < timeout * 0.95:
+            raise
         return ("timeout", items)
     except Exception as e:  # pylint: disable=broad-except
-        signal.setitimer(signal.ITIMER_REAL, 0)
         return ("exc", type(e).__name__, str(e)[:200])
-    finally:
-        signal.setitimer(signal.ITIMER_REAL, 0)
